@@ -406,6 +406,7 @@ fn accum_reset_finish<const L: usize>() {
 //@ bound: circular window D=3 cursor=1 full (any lap count), copy length<=3, dist 1..=usize::MAX, memlimit>=D
 #[cfg_attr(kani, kani::proof)]
 #[cfg_attr(kani, kani::stub(std::fmt::format, crate::verif_common::stub_format))]
+#[cfg_attr(kani, kani::stub(std::io::Error::is_interrupted, crate::verif_common::stub_not_interrupted))]
 pub fn circ_lz_full_d3_c1() {
     circ_lz_full::<3, 1>()
 }
@@ -414,6 +415,7 @@ pub fn circ_lz_full_d3_c1() {
 //@ bound: circular window D=3 cursor=0 full, copy length<=3, any dist
 #[cfg_attr(kani, kani::proof)]
 #[cfg_attr(kani, kani::stub(std::fmt::format, crate::verif_common::stub_format))]
+#[cfg_attr(kani, kani::stub(std::io::Error::is_interrupted, crate::verif_common::stub_not_interrupted))]
 pub fn circ_lz_full_d3_c0() {
     circ_lz_full::<3, 0>()
 }
@@ -422,6 +424,7 @@ pub fn circ_lz_full_d3_c0() {
 //@ bound: circular window D=3 cursor=2 full, copy length<=3, any dist
 #[cfg_attr(kani, kani::proof)]
 #[cfg_attr(kani, kani::stub(std::fmt::format, crate::verif_common::stub_format))]
+#[cfg_attr(kani, kani::stub(std::io::Error::is_interrupted, crate::verif_common::stub_not_interrupted))]
 pub fn circ_lz_full_d3_c2() {
     circ_lz_full::<3, 2>()
 }
@@ -430,6 +433,7 @@ pub fn circ_lz_full_d3_c2() {
 //@ bound: circular window D=2 cursor=1 full, copy length<=3, any dist
 #[cfg_attr(kani, kani::proof)]
 #[cfg_attr(kani, kani::stub(std::fmt::format, crate::verif_common::stub_format))]
+#[cfg_attr(kani, kani::stub(std::io::Error::is_interrupted, crate::verif_common::stub_not_interrupted))]
 pub fn circ_lz_full_d2_c1() {
     circ_lz_full::<2, 1>()
 }
@@ -438,6 +442,7 @@ pub fn circ_lz_full_d2_c1() {
 //@ bound: circular window D=1 cursor=0 full, copy length<=3, any dist
 #[cfg_attr(kani, kani::proof)]
 #[cfg_attr(kani, kani::stub(std::fmt::format, crate::verif_common::stub_format))]
+#[cfg_attr(kani, kani::stub(std::io::Error::is_interrupted, crate::verif_common::stub_not_interrupted))]
 pub fn circ_lz_full_d1_c0() {
     circ_lz_full::<1, 0>()
 }
@@ -446,6 +451,7 @@ pub fn circ_lz_full_d1_c0() {
 //@ bound: circular window D=4 cursor=3 full, copy length<=3, any dist
 #[cfg_attr(kani, kani::proof)]
 #[cfg_attr(kani, kani::stub(std::fmt::format, crate::verif_common::stub_format))]
+#[cfg_attr(kani, kani::stub(std::io::Error::is_interrupted, crate::verif_common::stub_not_interrupted))]
 pub fn circ_lz_full_d4_c3() {
     circ_lz_full::<4, 3>()
 }
@@ -454,6 +460,7 @@ pub fn circ_lz_full_d4_c3() {
 //@ bound: circular window D=6 cursor=4 full, copy length<=3, any dist
 #[cfg_attr(kani, kani::proof)]
 #[cfg_attr(kani, kani::stub(std::fmt::format, crate::verif_common::stub_format))]
+#[cfg_attr(kani, kani::stub(std::io::Error::is_interrupted, crate::verif_common::stub_not_interrupted))]
 pub fn circ_lz_full_d6_c4() {
     circ_lz_full::<6, 4>()
 }
@@ -462,6 +469,7 @@ pub fn circ_lz_full_d6_c4() {
 //@ bound: last_n/last_or on circular window D=3 cursor=1 full, any dist
 #[cfg_attr(kani, kani::proof)]
 #[cfg_attr(kani, kani::stub(std::fmt::format, crate::verif_common::stub_format))]
+#[cfg_attr(kani, kani::stub(std::io::Error::is_interrupted, crate::verif_common::stub_not_interrupted))]
 pub fn circ_last_full_d3_c1() {
     circ_last_full::<3, 1>()
 }
@@ -470,6 +478,7 @@ pub fn circ_last_full_d3_c1() {
 //@ bound: last_n/last_or on circular window D=2 cursor=0 full, any dist
 #[cfg_attr(kani, kani::proof)]
 #[cfg_attr(kani, kani::stub(std::fmt::format, crate::verif_common::stub_format))]
+#[cfg_attr(kani, kani::stub(std::io::Error::is_interrupted, crate::verif_common::stub_not_interrupted))]
 pub fn circ_last_full_d2_c0() {
     circ_last_full::<2, 0>()
 }
@@ -478,6 +487,7 @@ pub fn circ_last_full_d2_c0() {
 //@ bound: first lap D=3 cursor=1: append_literal (any memlimit) or append_lz(len 1, any dist, any memlimit)
 #[cfg_attr(kani, kani::proof)]
 #[cfg_attr(kani, kani::stub(std::fmt::format, crate::verif_common::stub_format))]
+#[cfg_attr(kani, kani::stub(std::io::Error::is_interrupted, crate::verif_common::stub_not_interrupted))]
 pub fn circ_first_lap_d3_c1_n1() {
     circ_first_lap::<3, 1, 1, true>()
 }
@@ -486,6 +496,7 @@ pub fn circ_first_lap_d3_c1_n1() {
 //@ bound: first lap D=4 cursor=2: append_literal (any memlimit) or append_lz(len 2, any dist, no memlimit)
 #[cfg_attr(kani, kani::proof)]
 #[cfg_attr(kani, kani::stub(std::fmt::format, crate::verif_common::stub_format))]
+#[cfg_attr(kani, kani::stub(std::io::Error::is_interrupted, crate::verif_common::stub_not_interrupted))]
 pub fn circ_first_lap_d4_c2_n2() {
     circ_first_lap::<4, 2, 2, false>()
 }
@@ -494,6 +505,7 @@ pub fn circ_first_lap_d4_c2_n2() {
 //@ bound: first lap D=2 cursor=1: append_literal / append_lz(len 2) crossing the first wrap, no memlimit
 #[cfg_attr(kani, kani::proof)]
 #[cfg_attr(kani, kani::stub(std::fmt::format, crate::verif_common::stub_format))]
+#[cfg_attr(kani, kani::stub(std::io::Error::is_interrupted, crate::verif_common::stub_not_interrupted))]
 pub fn circ_first_lap_d2_c1_n2() {
     circ_first_lap::<2, 1, 2, false>()
 }
@@ -502,6 +514,7 @@ pub fn circ_first_lap_d2_c1_n2() {
 //@ bound: first lap D=3 cursor=0 (empty window): append_literal / append_lz(len 1) - every dist is out of range
 #[cfg_attr(kani, kani::proof)]
 #[cfg_attr(kani, kani::stub(std::fmt::format, crate::verif_common::stub_format))]
+#[cfg_attr(kani, kani::stub(std::io::Error::is_interrupted, crate::verif_common::stub_not_interrupted))]
 pub fn circ_first_lap_d3_c0_n1() {
     circ_first_lap::<3, 0, 1, true>()
 }
@@ -510,6 +523,7 @@ pub fn circ_first_lap_d3_c0_n1() {
 //@ bound: LzCircularBuffer::finish D=3 cursor=2, sink failing or not
 #[cfg_attr(kani, kani::proof)]
 #[cfg_attr(kani, kani::stub(std::fmt::format, crate::verif_common::stub_format))]
+#[cfg_attr(kani, kani::stub(std::io::Error::is_interrupted, crate::verif_common::stub_not_interrupted))]
 pub fn circ_finish_d3_c2() {
     circ_finish::<3, 2>()
 }
@@ -518,6 +532,7 @@ pub fn circ_finish_d3_c2() {
 //@ bound: LzCircularBuffer::finish D=3 cursor=0 (nothing pending), sink failing or not
 #[cfg_attr(kani, kani::proof)]
 #[cfg_attr(kani, kani::stub(std::fmt::format, crate::verif_common::stub_format))]
+#[cfg_attr(kani, kani::stub(std::io::Error::is_interrupted, crate::verif_common::stub_not_interrupted))]
 pub fn circ_finish_d3_c0() {
     circ_finish::<3, 0>()
 }
@@ -526,6 +541,7 @@ pub fn circ_finish_d3_c0() {
 //@ bound: wrap flush into a failing sink, D=3
 #[cfg_attr(kani, kani::proof)]
 #[cfg_attr(kani, kani::stub(std::fmt::format, crate::verif_common::stub_format))]
+#[cfg_attr(kani, kani::stub(std::io::Error::is_interrupted, crate::verif_common::stub_not_interrupted))]
 pub fn circ_wrap_fail_d3() {
     circ_wrap_fail::<3>()
 }
@@ -534,6 +550,7 @@ pub fn circ_wrap_fail_d3() {
 //@ bound: accumulating window holding 3 bytes: append_lz(len 2, any dist) / last_n(any dist) / append_literal
 #[cfg_attr(kani, kani::proof)]
 #[cfg_attr(kani, kani::stub(std::fmt::format, crate::verif_common::stub_format))]
+#[cfg_attr(kani, kani::stub(std::io::Error::is_interrupted, crate::verif_common::stub_not_interrupted))]
 pub fn accum_step_l3_n2() {
     accum_step::<3, 2>()
 }
@@ -542,6 +559,7 @@ pub fn accum_step_l3_n2() {
 //@ bound: accumulating window holding 0 bytes (just reset): every copy is rejected
 #[cfg_attr(kani, kani::proof)]
 #[cfg_attr(kani, kani::stub(std::fmt::format, crate::verif_common::stub_format))]
+#[cfg_attr(kani, kani::stub(std::io::Error::is_interrupted, crate::verif_common::stub_not_interrupted))]
 pub fn accum_step_l0_n1() {
     accum_step::<0, 1>()
 }
@@ -550,6 +568,7 @@ pub fn accum_step_l0_n1() {
 //@ bound: accumulating window holding 1 byte: append_lz(len 3, any dist) (RLE overlap)
 #[cfg_attr(kani, kani::proof)]
 #[cfg_attr(kani, kani::stub(std::fmt::format, crate::verif_common::stub_format))]
+#[cfg_attr(kani, kani::stub(std::io::Error::is_interrupted, crate::verif_common::stub_not_interrupted))]
 pub fn accum_step_l1_n3() {
     accum_step::<1, 3>()
 }
@@ -558,6 +577,7 @@ pub fn accum_step_l1_n3() {
 //@ bound: LzAccumBuffer::{reset,finish} with 3 buffered bytes, sink failing or not
 #[cfg_attr(kani, kani::proof)]
 #[cfg_attr(kani, kani::stub(std::fmt::format, crate::verif_common::stub_format))]
+#[cfg_attr(kani, kani::stub(std::io::Error::is_interrupted, crate::verif_common::stub_not_interrupted))]
 pub fn accum_reset_finish_l3() {
     accum_reset_finish::<3>()
 }
@@ -566,6 +586,7 @@ pub fn accum_reset_finish_l3() {
 //@ bound: vacuity twin
 #[cfg_attr(kani, kani::proof)]
 #[cfg_attr(kani, kani::stub(std::fmt::format, crate::verif_common::stub_format))]
+#[cfg_attr(kani, kani::stub(std::io::Error::is_interrupted, crate::verif_common::stub_not_interrupted))]
 pub fn lzbuffer_sanity_twin() {
     let mut t = Tape::<40>::new();
     let hist: [u8; H] = t.bytes::<H>();
